@@ -96,7 +96,7 @@ type sellerWorld struct {
 	pending  []string       // output lines produced while executing the op
 }
 
-func newSellerWorld(hrs []float64, cycle time.Duration) *sellerWorld {
+func newSellerWorld(hrs []float64, cycle time.Duration, slowStop bool) *sellerWorld {
 	w := &sellerWorld{ctrs: map[string]resources.Contract{}, cycle: cycle, logSeen: map[string]int{}, added: map[string]int{}}
 	allocator.VerifOnAddTask = func(minerID string, taskID string, job float64) {
 		w.mu.Lock()
@@ -106,6 +106,16 @@ func newSellerWorld(hrs []float64, cycle time.Duration) *sellerWorld {
 	w.me = lib.MustPrivKeyStringToAddr(sellerKey)
 	w.chain = vh.NewFakeChain(common.HexToAddress("0x00000000000000000000000000000000000000cf"))
 	log := vh.NopLog()
+	if slowStop {
+		// the watcher's goroutine logs "contract stopped" between signalling that it is done and clearing its
+		// running flag: a pause there lets whoever waited for the signal go first (a seam, not a hook: if the
+		// message goes away the histories simply run uncontrolled)
+		log.OnMsg = func(level string, msg string) {
+			if strings.HasPrefix(msg, "contract stopped") {
+				time.Sleep(time.Millisecond)
+			}
+		}
+	}
 	w.store = contracts.NewHashrateEthereum(w.chain.CF, w.chain, log)
 	w.alloc = allocator.NewAllocator(lib.NewCollection[*allocator.Scheduler](), log)
 	hrf := func() *hashrate.Hashrate {
@@ -306,7 +316,7 @@ func sellerExec(tr *vh.Transcript, ops []string) {
 					hrs = append(hrs, hr)
 				}
 			}
-			w = newSellerWorld(hrs, time.Duration(cyc)*time.Second)
+			w = newSellerWorld(hrs, time.Duration(cyc)*time.Second, m["slowstop"] == "1")
 			w.acct = m["acct"] == "1"
 			tr.Op("%s", op)
 			continue
@@ -471,6 +481,9 @@ func kvS(f []string) map[string]string {
 
 func sellerGen(r *vh.Rng) []string {
 	ops := []string{fmt.Sprintf("world miners=%d hr=1000 cycle=60", 3+r.Intn(3))}
+	if r.Bool(35) {
+		ops[0] += " slowstop=1" // the stopping watcher pauses between "done" and clearing its running flag
+	}
 	kinds := []string{"v:poolx", "v:poolx", "v:pooly", "v:poolx", "empty", "garbage", "nothex", "noturl"}
 	names := []string{"c1", "c2"}
 	running := map[string]bool{}
